@@ -343,7 +343,7 @@ RULE = ('cases = (transform form, table, arguments); %d forms covering cut, cuto
         'namedtuples / columns accessors; seeded random tables of 0-5 rows x 1-4 fields, ragged rows (40 %% of cases where the form tolerates them), '
         'duplicate field names where resolution is by the index/name rule, field selection by name / index / mixed, negative and out-of-range '
         'insertion indices. Non-trivial: >= 2 data rows. Distinct = SHA-1 of the case.' % len(FORMS))
-REQUIRED = ['views-read-twice', 'marker-equal-but-not-identical'] + ['form:' + f for f in FORMS] + ['ragged-judged', 'duplicate-names-judged', 'frame-condition-used', 'exact-comparison-used',
+REQUIRED = ['views-read-twice', 'views-re-read-after-an-in-place-edit-of-the-source', 'marker-equal-but-not-identical'] + ['form:' + f for f in FORMS] + ['ragged-judged', 'duplicate-names-judged', 'frame-condition-used', 'exact-comparison-used',
                                            'negative-or-out-of-range-insertion-index', 'cat:repeated-field-name-in-a-later-table',
                                            'fieldmap:suffix-notation-two-views']
 
@@ -405,11 +405,21 @@ def judge(case, ctx):
     frame = is_ragged and f.ragged == 'frame'
     ctx.seen('frame-condition-used' if frame else 'exact-comparison-used')
     J = globals()['j_' + name.replace('-', '_')]
-    return J(case, ctx, table, hdr, rows, tabs, frame)
+    LIVE[0] = table if type(table) is list else None
+    e0 = util.EDITED[0]
+    try:
+        return J(case, ctx, table, hdr, rows, tabs, frame)
+    finally:
+        LIVE[0] = None
+        if util.EDITED[0] != e0:
+            ctx.seen('views-re-read-after-an-in-place-edit-of-the-source', util.EDITED[0] - e0)
+
+
+LIVE = [None]      # the plain list the current case's view is built over (None when C03 has wrapped it in mutation guards)
 
 
 def _run(fn):
-    return util.attempt_rows_twice(fn)
+    return util.attempt_rows_twice(fn, live=LIVE[0])
 
 
 def j_cut(case, ctx, table, hdr, rows, tabs, frame):
